@@ -348,6 +348,7 @@ def check_stock(acc):
     from clastic.errors import Forbidden
     from werkzeug.wrappers import Response
     from mc import wsgi
+    log = []
     for label, mk in stock_pairs():
         for site in STOCK_SITES:
             acc.evaluated += 1
@@ -403,6 +404,63 @@ def check_stock(acc):
         log.append('target')
         start_response('200 OK', [('Content-Type', 'text/plain')])
         return [b'target']
+    # a stock middleware in the middle of the stack is transparent to failures further in: every layer is entered once
+    # and sees the very exception that was raised, once
+    for label, mk in stock_pairs():
+        for exc_type in (TypeError, ValueError, KeyError, AttributeError, RuntimeError, LookupError):
+            for where in ('endpoint', 'render'):
+                acc.evaluated += 1
+                acc.validated += 1
+                acc.transitions += 1
+                acc.add('nontrivial')
+                case = {'layer': 'stock-failure', 'label': label, 'exc': exc_type.__name__, 'where': where}
+                del log[:]
+                the_exc = exc_type('raised by the %s' % where)
+
+                def mk_tracer(tag):
+                    class T(Middleware):
+                        def request(self, next):
+                            log.append(tag + '.request>')
+                            try:
+                                return next()
+                            except Exception as e:
+                                log.append(tag + '.request!' + ('same' if e is the_exc else repr(e)))
+                                raise
+
+                        def render(self, next, context):
+                            log.append(tag + '.render>')
+                            try:
+                                return next()
+                            except Exception as e:
+                                log.append(tag + '.render!' + ('same' if e is the_exc else repr(e)))
+                                raise
+                    T.__name__ = 'T' + tag
+                    return T()
+
+                def ep_f():
+                    log.append('ep')
+                    if where == 'endpoint':
+                        raise the_exc
+                    return {'k': 'v'}
+
+                def rn_f(context):
+                    log.append('render')
+                    raise the_exc
+                try:
+                    app = Application([Route('/f', ep_f, rn_f)], middlewares=[mk_tracer('outer'), mk(0), mk_tracer('inner')])
+                except Exception as e:
+                    acc.violation('C03:stock-rejected:%s' % label, '%s between two tracing middlewares: construction raised %r' % (label, e), case)
+                    continue
+                res = wsgi.call(app, '/f', 'GET')
+                if where == 'endpoint':
+                    want = ['outer.request>', 'inner.request>', 'ep', 'inner.request!same', 'outer.request!same']
+                else:
+                    want = ['outer.request>', 'inner.request>', 'ep', 'outer.render>', 'inner.render>', 'render',
+                            'inner.render!same', 'outer.render!same', 'inner.request!same', 'outer.request!same']
+                acc.outcome('stock-failure:%s:%s' % (label, where))
+                if log != want or res.code != 500:
+                    acc.violation('C03:stock-failure-trace:%s:%s' % (label, where), '%s in the middle of the stack, %s raised by the %s: '
+                                  'trace %r -> %s, expected %r' % (label, exc_type.__name__, where, log, res.status, want), case)
     for spelling in ('instance', 'raising-function'):
         for level in ('app', 'route'):
             for deny in (False, True):
@@ -475,7 +533,7 @@ def finish(tier, merged, results):
         if not any(':raise:' in k for k in oc) or not any(':return:409' in k for k in oc):
             raise common.InternalError('vacuous: fault scripts did not produce raise / HTTPException outcomes')
     sizes = dict((name, sum(1 for _ in gen())) for name, gen in layers(tier))
-    sizes['stock'] = len(stock_pairs()) * len(STOCK_SITES) + REROUTE_ITEMS
+    sizes['stock'] = len(stock_pairs()) * len(STOCK_SITES) + REROUTE_ITEMS + len(stock_pairs()) * 6 * 2
     return {'space_size': sum(sizes.values()), 'bounds': {'layers': sizes, 'types': TYPES, 'mw_scripts': MW_SCRIPTS},
             'distinct_nontrivial': merged['extra'].get('nontrivial', 0)}
 
@@ -484,7 +542,7 @@ def replay(case):
     common.setup_repo()
     acc = common.Acc()
     h = chain.Harness()
-    if case.get('layer') in ('stock', 'reroute'):
+    if case.get('layer') in ('stock', 'reroute', 'stock-failure'):
         check_stock(acc)
         vs = [v for v in acc.violations if v['case'] == case]
         return (False, vs[0]['desc']) if vs else (True, 'ok')
